@@ -28,13 +28,16 @@ pub fn handle(op: &str, req: &Value) -> Option<Value> {
             let (condv, _) = value(&req["cond"]);
             let kind = req["kind"].as_str().unwrap_or("hash");
             let order = req["order"].as_str().unwrap_or("");
-            let mk = |c: &str, v: RV| match () {
-                _ if kind == "hash" => Condition::Eq(c.into(), v),
-                _ if order.ends_with("Less") => Condition::Lt(c.into(), v),
-                _ if order.ends_with("Greater") => Condition::Gt(c.into(), v),
-                _ => Condition::Le(c.into(), v),
+            let ops: Vec<u8> = if kind == "hash" { vec![4] } else { vec![0, 1, 2, 3] };
+            let mk = |o: u8, c: &str, v: RV| match o {
+                4 => Condition::Eq(c.into(), v),
+                0 => Condition::Lt(c.into(), v),
+                1 => Condition::Le(c.into(), v),
+                2 => Condition::Gt(c.into(), v),
+                _ => Condition::Ge(c.into(), v),
             };
-            let run = |indexed: bool| -> Result<usize, String> {
+            let _ = order;
+            let run = |indexed: bool| -> Result<Vec<usize>, String> {
                 let e = RelationalEngine::new();
                 let mut col = Column::new("x", ty.clone());
                 col = col.nullable();
@@ -43,7 +46,11 @@ pub fn handle(op: &str, req: &Value) -> Option<Value> {
                     if kind == "hash" { e.create_index("t", "x").map_err(|e| e.to_string())?; } else { e.create_btree_index("t", "x").map_err(|e| e.to_string())?; }
                 }
                 e.insert("t", HashMap::from([("x".to_string(), rowv.clone())])).map_err(|e| e.to_string())?;
-                e.select("t", mk("x", condv.clone())).map(|r| r.len()).map_err(|e| e.to_string())
+                let mut out = vec![];
+                for o in &ops {
+                    out.push(e.select("t", mk(*o, "x", condv.clone())).map(|r| r.len()).map_err(|e| e.to_string())?);
+                }
+                Ok(out)
             };
             let scan = run(false);
             let idx = run(true);
